@@ -230,6 +230,17 @@ func GenStructured(id int64) *VMCase {
 	r := newRng(id)
 	c := baseCase(id, "structured", r)
 	g := &sgen{r: r, a: newAsm(), c: c, fuel: 3 + r.Intn(22)}
+	if r.Intn(40) == 0 { // a stack filled to just below, exactly at, or just beyond the 1024-word limit
+		n := uint64(1018 + r.Intn(10))
+		pushing := []byte{0x30, 0x33, 0x58, 0x59, 0x5a, 0x80, 0x36}[r.Intn(7)] // ADDRESS CALLER PC MSIZE GAS DUP1 CALLDATASIZE
+		g.a.pushN(2, new(big.Int).SetUint64(n))
+		g.a.op(0x5b)                         // pc 3
+		g.a.op(pushing, 0x90)                // one more item under the counter
+		g.a.op(0x60, 0x01, 0x90, 0x03, 0x80) // counter - 1, kept twice
+		g.a.op(0x60, 0x03, 0x57)             // loop while it is not zero
+		g.depth = 3                          // at least; the body below works on the top items only
+		g.fuel = 1 + r.Intn(4)
+	}
 	for i, n := 0, r.Intn(4); i < n; i++ { // locals
 		g.push(randWord(r))
 	}
